@@ -125,7 +125,7 @@ def negative_binomial(
     data: np.ndarray, model: np.ndarray, num_trials: float
 ) -> np.ndarray:
     """Return objective function for negative binomial distributions."""
-    return (num_trials + data) * np.log(model + 1) - data * np.log(model + EPS)
+    return (float(num_trials) + data) * np.log(model + 1) - data * np.log(model + EPS)
 
 
 def negative_binomial_grad(
